@@ -67,6 +67,7 @@ func ruleC14(w *World, r *Report) {
 		"R14.2 addEndMarker's only caller is UpdateFAR and SendEndMarkers' only caller is the modification handler; R14.3 the flag is set only under the SNDEM bit of PFCPSMReqFlags (bit mask evaluated exhaustively over uint8), reset before parsing, and Update Forwarding Parameters are read only for the update operation; " +
 		"R14.4 emission is dominated by the not-rejected branch of SendMsgToUPF(modify) and by enableEndMarker, the list is function-local; R14.5 packet literal field mapping (IPv4 src/dst, UDP 2152, GTP TEID, message type 254) from the argument FAR."
 	r.Explanation += " R14.7 wherever endMarkerChan is assigned the consumer goroutine is started in the same function, and the consumer loops have no exit other than a closed channel."
+	r.Explanation += " R14.8 bit 2 of the flags octet is examined on every path after the octet was read; R14.9 UpdateFAR is called only with FARs parsed from Update FAR IEs."
 	r.NotDecided = "the serialised bytes (gopacket); that the datapath actually transmits the packet"
 	upd := w.Fn(P, "pfcpiface.(*PFCPSession).UpdateFAR")
 	aem := w.Fn(P, "pfcpiface.addEndMarker")
